@@ -1,0 +1,9 @@
+//go:build verif
+
+package parser
+
+import c "github.com/paulsonkoly/calc/combinator"
+
+// VerifProgram runs the grammar's start rule on the given lexer, so that a
+// verification harness can observe the lexer operations the parser performs.
+func VerifProgram(l c.RollbackLexer) ([]c.Node, *Error) { return program(l) }
